@@ -1168,6 +1168,8 @@ func SetEchoPrintFlag(env *Zlisp, name string, args []Sexp) (Sexp, error) {
 type SexpHashSelector struct {
 	Select    Sexp
 	Container *SexpHash
+
+	printing bool // SexpString is in progress
 }
 
 func (h *SexpHash) NewSexpHashSelector(sym *SexpSymbol) *SexpHashSelector {
@@ -1178,6 +1180,12 @@ func (h *SexpHash) NewSexpHashSelector(sym *SexpSymbol) *SexpHashSelector {
 }
 
 func (si *SexpHashSelector) SexpString(ps *PrintState) string {
+	if si.printing {
+		// the selector selects (something that holds) itself
+		return "(hashSelector ...)"
+	}
+	si.printing = true
+	defer func() { si.printing = false }()
 	rhs, err := si.RHS(si.Container.Env)
 	if err != nil {
 		return fmt.Sprintf("SexpHashSelector error: could not get RHS: '%v'",
